@@ -35,13 +35,14 @@ TREE = {"a.txt": "A-file", "index.html": "ROOT-INDEX", "x.html": "X-HTML", "..na
         "v1.2.html": "V12-PAGE", "dir/notes.txt.html": "NOTES-PAGE",
         "dir2.html": "DIR2-SIBLING-PAGE", "dir.html": "DIR-SIBLING-PAGE",  # a directory and a page of the same name: the directory URL redirects
         "cafe\u0301.txt": "DECOMPOSED-NAME", "caf\u00e9.txt": "COMPOSED-NAME", "\u6587\u4ef6.txt": "CJK-NAME", "\u00c7a.html": "C-CEDILLA-PAGE",
+        "back\\slash.txt": "BACKSLASH-NAME", "dir\\b.html": "BACKSLASH-PAGE",  # a backslash is an ordinary character of a file name here
         "empty.txt": "", "empty.html": "", "dir/empty.bin": "",  # zero-byte files are files
         "nb\u00a0sp.txt": "NBSP-NAME", "zw\u200dj.txt": "ZWJ-NAME", "ls\u2028ps.txt": "LINE-SEPARATOR-NAME", "soft\u00adhy.html": "SOFT-HYPHEN-PAGE"}  # two different files: a name is bytes, not normalised text
 OUTSIDE = {"secret.txt": "SECRET-1", "static-secret.txt": "SECRET-2", "static2/s.txt": "SECRET-3", "a.txt": "OUTER-A", "index.html": "OUTER-INDEX"}
 DIRS = {""} | {os.path.dirname(k) for k in TREE if "/" in k} | {"L" * 100}
 SEGS = ["", ".", "..", "a.txt", "dir", "dir2", "..name", "%2e%2e", "index.html", "x", "x.html", "é.txt", "static", "static2", "secret.txt", "nope",
         "index", "b.txt", ".hidden", "static-secret.txt", "sock", "v1.2", "notes.txt", "cafe\u0301.txt", "\u6587\u4ef6.txt", "\u00c7a",
-        "empty.txt", "empty", "nb\u00a0sp.txt", "zw\u200dj.txt", "soft\u00adhy"]
+        "back\\slash.txt", "dir\\b.txt", "dir\\b", "empty.txt", "empty", "nb\u00a0sp.txt", "zw\u200dj.txt", "soft\u00adhy"]
 
 
 def make_special(served):
@@ -65,6 +66,7 @@ def make_tree(base, tree):
         os.makedirs(os.path.dirname(p), exist_ok=True)
         with open(p, "w") as f:
             f.write(c)
+        os.utime(p, (1_600_000_000, 1_600_000_000))  # one time stamp for every file (unpacked from an archive, built into an image): same size + same time is common
 
 
 def resolve(served_abs, path):
@@ -239,6 +241,8 @@ def run(ctx):
     make_tree(os.path.join(pkg, ".hstatic"), TREE)
     make_special(os.path.join(pkg, ".hstatic"))
     make_tree(os.path.join(pkg, "hstatic"), {"a.txt": "SIBLING-A", "index.html": "SIBLING-INDEX", "secret.txt": "SIBLING-SECRET"})
+    make_tree(os.path.join(root, "~"), TREE)  # a directory literally named "~" below the working directory
+    make_special(os.path.join(root, "~"))
     if not os.path.islink(os.path.join(root, "current")):
         os.symlink("static", os.path.join(root, "current"))
     sys.path.insert(0, root)
@@ -253,6 +257,7 @@ def run(ctx):
             "package": (os.path.join(pkg, "static"), dict(directory="static", package="pkgc07")),
             "via-symlink": (os.path.join(root, "current"), dict(directory=os.path.join(root, "current"))),  # the configured directory is a symbolic link to the real one
             "package-dotdir": (os.path.join(pkg, ".hstatic"), dict(directory=".hstatic", package="pkgc07")),
+            "relative-tilde": (os.path.join(root, "~"), dict(directory="~")),
         }
         # a custom not-found application configured (handle_404=...): everything else must behave as without it
         def custom404(iface):
@@ -397,8 +402,11 @@ def replay(ctx, case):
         ns = wsgi if case["iface"] == "wsgi" else asgi
         form = case.get("directory_form", "absolute")
         kw = {"absolute": dict(directory=served), "absolute+handle_404": dict(directory=served), "relative": dict(directory="static"), "relative-dot": dict(directory="./static/../static/"),
-              "package": dict(directory="static", package="pkgc07")}[form]
-        abs_dir = os.path.join(pkg, "static") if form == "package" else served
+              "package": dict(directory="static", package="pkgc07"), "relative-tilde": dict(directory="~")}[form]
+        abs_dir = os.path.join(pkg, "static") if form == "package" else os.path.join(root, "~") if form == "relative-tilde" else served
+        if form == "relative-tilde":
+            make_tree(os.path.join(root, "~"), TREE)
+            make_special(os.path.join(root, "~"))
         app = getattr(ns, case["app"])(**kw)
         if "in_flight_paths" in case:
             from vf import inflight
